@@ -5,6 +5,7 @@ NAME = "heyawake"
 MODULE = "cspuz.puzzle.heyawake"
 FUNC = "solve_heyawake"
 TIER1 = ("Heyawake", "solve_heyawake_model")
+TIER1_PRIM = ("HeyawakePrim", "solve_heyawake_model_prim")
 
 
 def call(mod, pb):
